@@ -1714,6 +1714,75 @@ example : ∀ m, relateImpl? (.point ⟨9, 9⟩) (.lineString [⟨0, 0⟩, ⟨4,
   fun m h => relateImpl_point_rows_eq_spec_allTypes_both_paths_partial _ _ (by decide +kernel) rfl
     (dimsSpec_lineString _ (by decide)) h _ _ (by decide)
 
+/-- Point, MultiPoint, Line, LineString, MultiLineString, Rect, Triangle -/
+def noPolygonType : Geom → Bool
+  | .polygon _ | .multiPolygon _ | .collection _ => false
+  | _ => true
+
+/-- [T] **`HasDimensions` = the specification's row maxima (`DimsSpec`) for every operand of the validity domain that
+is not a Polygon, MultiPolygon or GeometryCollection** — the hypotheses of the per-type theorems above (`hlen`, `hx`,
+`hy`, `hD`) follow from validity. Full statement (every operand of the domain): needs an interior face sample of a
+valid polygon (S2 type, `dimsSpec_polygon_partial`), and `DimsSpec` for collections. -/
+theorem dimsSpec_dom_partial (b : Geom) (hd : inDomain b = true) (ht : noPolygonType b = true) : Spec.DimsSpec b := by
+  cases b with
+  | point q => exact dimsSpec_point q
+  | multiPoint qs => exact dimsSpec_multiPoint qs
+  | line a b => exact dimsSpec_line a b
+  | lineString cs =>
+    apply dimsSpec_lineString
+    rcases Geo.Proofs.C02X.lineString_dom_length hd with rfl | h
+    · simp
+    · omega
+  | multiLineString ls =>
+    apply dimsSpec_multiLineString
+    intro l hl
+    have := long_length (long_of_mls_dom hd l hl)
+    omega
+  | rect mn mx =>
+    have h : mn.x < mx.x ∧ mn.y < mx.y := by simpa [inDomain, validGeom] using hd
+    exact dimsSpec_rect mn mx h.1 h.2
+  | triangle a b c =>
+    have h : orient a b c ≠ .col := by simpa [inDomain, validGeom] using hd
+    exact dimsSpec_triangle a b c (fun e => h ((Geo.Proofs.Kernel.orient_col_iff a b c).2 e))
+  | polygon _ => cases ht
+  | multiPolygon _ => cases ht
+  | collection _ => cases ht
+
+example : Spec.DimsSpec (.multiLineString [[⟨0, 0⟩, ⟨1, 0⟩], [⟨1, 0⟩, ⟨1, 1⟩], [⟨1, 0⟩, ⟨2, 0⟩]]) :=
+  dimsSpec_dom_partial _ (by decide +kernel) rfl
+
+/-- [T] **the disjoint-envelope shortcut returns the specification's matrix — the whole matrix, no `DimsSpec`
+hypothesis — for operands of the domain without polygonal members** (any arithmetic). -/
+theorem relateImpl_disjoint_eq_spec_noPolygon_partial (ar : Arith) {a b : Geom} (ha : inDomain a = true)
+    (hb : inDomain b = true) (hta : noPolygonType a = true) (htb : noPolygonType b = true)
+    (h : envelopesMeet a b = false) : relateImplWith ar a b = some (relateSpec a b) :=
+  relateImpl_disjoint_eq_spec_dom_partial ar ha hb h (dimsSpec_dom_partial a ha hta) (dimsSpec_dom_partial b hb htb)
+
+/-- an open line string and a far triangle: the whole matrix -/
+example : relateImpl? (.lineString [⟨0, 0⟩, ⟨4, 0⟩, ⟨4, 3⟩]) (.triangle ⟨6, 0⟩ ⟨8, 0⟩ ⟨6, 3⟩) =
+    some (relateSpec (.lineString [⟨0, 0⟩, ⟨4, 0⟩, ⟨4, 3⟩]) (.triangle ⟨6, 0⟩ ⟨8, 0⟩ ⟨6, 3⟩)) :=
+  relateImpl_disjoint_eq_spec_noPolygon_partial _ (by decide +kernel) (by decide +kernel) rfl rfl (by decide +kernel)
+
+/-- [T] **Point × B, rows Interior and Boundary, on BOTH paths of `compute_intersection_matrix`, without any further
+hypothesis**, for `B` a Point, MultiPoint, Line, LineString, MultiLineString, Rect or Triangle of the domain: whatever
+`relate(Point p, B)` returns has the specification's rows. -/
+theorem relateImpl_point_rows_eq_spec_noPolygon_partial (p : Pt) (b : Geom) (hd : inDomain b = true)
+    (ht : noPolygonType b = true) {m : IM} (h : relateImpl? (.point p) b = some m)
+    (X Y : Pos) (hX : X ≠ .outside) : m.get X Y = (relateSpec (.point p) b).get X Y :=
+  relateImpl_point_rows_eq_spec_allTypes_both_paths_partial p b hd
+    (by cases b <;> first | rfl | cases ht) (dimsSpec_dom_partial b hd ht) h X Y hX
+
+/-- a point at the common end point of three line strings, and far from them -/
+example : ∀ m, relateImpl? (.point ⟨1, 0⟩) (.multiLineString [[⟨0, 0⟩, ⟨1, 0⟩], [⟨1, 0⟩, ⟨1, 1⟩], [⟨1, 0⟩, ⟨2, 0⟩]]) = some m →
+    m.get .inside .onBoundary =
+      (relateSpec (.point ⟨1, 0⟩) (.multiLineString [[⟨0, 0⟩, ⟨1, 0⟩], [⟨1, 0⟩, ⟨1, 1⟩], [⟨1, 0⟩, ⟨2, 0⟩]])).get .inside .onBoundary :=
+  fun m h => relateImpl_point_rows_eq_spec_noPolygon_partial _ _ (by decide +kernel) rfl h _ _ (by decide)
+
+example : ∀ m, relateImpl? (.point ⟨7, 7⟩) (.multiLineString [[⟨0, 0⟩, ⟨1, 0⟩], [⟨1, 0⟩, ⟨1, 1⟩], [⟨1, 0⟩, ⟨2, 0⟩]]) = some m →
+    m.get .inside .outside =
+      (relateSpec (.point ⟨7, 7⟩) (.multiLineString [[⟨0, 0⟩, ⟨1, 0⟩], [⟨1, 0⟩, ⟨1, 1⟩], [⟨1, 0⟩, ⟨2, 0⟩]])).get .inside .outside :=
+  fun m h => relateImpl_point_rows_eq_spec_noPolygon_partial _ _ (by decide +kernel) rfl h _ _ (by decide)
+
 end Impl3
 
 end Geo.Proofs.C01
